@@ -289,6 +289,8 @@ func oracleC08(c *BCase) (f *ev.Failure, bothAccept bool) {
 		stripUnknown(r2)
 		if proto.Equal(g2.Interface(), r2.Interface()) {
 			kind = "silent-disagreement-unknown-bytes"
+		} else if singularMessageOccursTwice(mt.Desc, c.Bytes) {
+			kind = "merge-semantics" // (the recorded C06 finding, reached through a mutated input)
 		}
 		return ev.Failf(sigOf("C08", kind, mt), "both decoders accept %.80x [%s] but the generated Unmarshal gives %.200v (unknown %x) and the reference %.200v (unknown %x)", c.Bytes, c.Note, g2.Interface(), []byte(got.GetUnknown()), r2.Interface(), []byte(ref.GetUnknown())), true
 	}
